@@ -251,7 +251,16 @@ def C18(tier, seed):
         "outside the documented domain (Windows names with '/', 'X:' followed by more first-segment text, UNC with empty server) only conformance to the transcribed conversion is required, not the round trip. non-trivial = non-empty name; distinct by (name, direction)",
         ["TLC/SANY, CommunityModules", "spec/UriFile.tla", "guard pages make an out-of-bounds write an event"])
 
-CHECKS = {"C16": C16, "C17": C17, "C18": C18, "C01": C01, "C02": C02, "C03": C03, "C04": C04, "C05": C05, "C06": C06, "C08": C08, "C09": C09, "C11": C11}
+def C15(tier, seed):
+    return _simple("C15", tier, seed, "MC_Memory", "MC_Memory.cfg", "MC_Memory_t.cfg",
+        "design of the completed manager (size header, realloc by malloc+copy+free, overflow-checked products) over a backend failing at any call, on a scaled word: live blocks disjoint and backed by a large-enough backend block, no backend leak, failure leaves everything intact, calloc zeroed, overflow refused with ENOMEM, realloc conventions",
+        "memory", "Trace_Memory",
+        "random call sequences (3..14 calls, thorough ..30) of malloc/calloc/realloc/reallocarray/free on the real completed manager over an instrumented backend, sizes from {0,1,2,3,8,24,100,4096, SIZE_MAX-8, SIZE_MAX-7, SIZE_MAX-1, SIZE_MAX, SIZE_MAX/2+1}, factor pairs covering overflow with a small factor and with 2^32-sized factors, "
+        "backend failure plans (none / one / several positions); every block is pattern-filled over its full size, prefixes and zeroing are checked, canaries surround backend blocks; each episode ends by freeing everything. The stateful trace spec carries live user and backend blocks through the episode. "
+        "non-trivial = every episode; distinct by (call/return sequence, failure plan)",
+        ["TLC/SANY, CommunityModules", "spec/UriMemory.tla (scaled-word design model) and Trace_Memory.tla (contract on recorded calls)", "content observations (prefix, zeroing, full-size usability, canaries) are made by the harness and ASan"])
+
+CHECKS = {"C15": C15, "C16": C16, "C17": C17, "C18": C18, "C01": C01, "C02": C02, "C03": C03, "C04": C04, "C05": C05, "C06": C06, "C08": C08, "C09": C09, "C11": C11}
 
 # ------------------------------------------------------------------ known findings triage, replay
 def triage(pid, violations, kf):
